@@ -212,6 +212,8 @@ def gen_cases(run):
         cases.append(("internal-register", G.internal_case(rng, "in%d" % i, nbpus=rng.choice([4, 8, 16]))))
     for i in range(600 if thorough else 100):
         cases.append(("adopted", G.adopt_case(rng, "ad%d" % i, nbpus=rng.choice([4, 8, 16]))))
+    for i in range(3000 if thorough else 350):
+        cases.append(("numa-restrict-flags", G.numa_case(rng, "nu%d" % i)))
     cases += snapshot_cases(run)
     for i in range(400 if thorough else 80):
         cases.append(("malformed", G.malformed_case(rng, "bad%d" % i)))
@@ -272,7 +274,7 @@ def check(run, replay=None):
     drift = 0
     reported = 0
     more = []
-    hyp = {"forced_known_distinct": 0, "restrict_removed_kind": 0, "ranked": 0, "all_unknown": 0, "einval": 0, "exdev": 0, "enoent": 0, "found": 0}
+    hyp = {"forced_known_distinct": 0, "restrict_removed_kind": 0, "ranked": 0, "all_unknown": 0, "einval": 0, "exdev": 0, "enoent": 0, "found": 0, "restrict_bynodeset_removed_pus": 0}
     for c in batch:
         n = c[0].split()[1]
         kind = names[n][0]
